@@ -898,6 +898,11 @@ func (ctx Ctx) basicLiteral(e *ast.BasicLit) coq.Expr {
 		if strings.ContainsRune(s, '"') {
 			ctx.unsupported(e, "string literals with quotes")
 		}
+		if strings.ContainsRune(s, '\n') {
+			// the pretty-printer re-indents every line of the output, which
+			// would change the contents of the literal
+			ctx.unsupported(e, "string literals with newlines")
+		}
 		return coq.StringLiteral{Value: s}
 	}
 	if e.Kind == token.INT {
